@@ -57,9 +57,13 @@ func sortAfterLoop(c *an.Ctx, l *an.MapLoop, cfg *an.OrderConfig) (bool, string)
 // callerSorts: fn's only callers are `callers`, and each sorts the value it receives from fn.
 func callerSorts(callers ...string) func(c *an.Ctx, l *an.MapLoop, cfg *an.OrderConfig) (bool, string) {
 	return func(c *an.Ctx, l *an.MapLoop, cfg *an.OrderConfig) (bool, string) {
-		got := effectiveCallers(c.P, l.Fn, callers)
-		if ok, extra := subset(got, callers); !ok || len(got) == 0 {
-			return false, "unexpected caller " + extra
+		if len(callers) > 0 {
+			got := effectiveCallers(c.P, l.Fn, callers)
+			if ok, extra := subset(got, callers); !ok || len(got) == 0 {
+				return false, "unexpected caller " + extra
+			}
+		} else if len(c.P.Callers(l.Fn)) == 0 || l.Fn.Object() == nil || l.Fn.Object().Exported() {
+			return false, "no callers / exported"
 		}
 		for caller, sites := range c.P.Callers(l.Fn) {
 			for _, site := range sites {
@@ -78,6 +82,14 @@ func callerSorts(callers ...string) func(c *an.Ctx, l *an.MapLoop, cfg *an.Order
 					}
 					if arg, isSort := cfg.IsSort(cl); isSort && (t.Has(arg) || t.Has(an.Strip(arg))) {
 						sorted = true
+					} else if isSort {
+						// the result was stored into a place and the place is what gets sorted
+						ap := an.Path(an.Strip(arg))
+						for _, r := range an.Referrers(v) {
+							if st, ok := r.(*ssa.Store); ok && st.Val == ssa.Value(v) && strings.TrimPrefix(an.Path(st.Addr), "&") == strings.TrimPrefix(ap, "*") {
+								sorted = true
+							}
+						}
 					}
 				})
 				if !sorted {
@@ -520,6 +532,24 @@ func runC10(c *an.Ctx) {
 				c.Pass("D1", "loop("+key+")", l.Range.Pos(), "triaged ["+eff+"]: "+tr.Reason)
 				continue
 			}
+			// the accumulated slice is handed back and every caller sorts it before anything else
+			// (a collect loop extracted into a helper, the sort left with the caller)
+			if eff == "append" {
+				if ok, _ := callerSorts()(c, l, cfg); ok {
+					nAuto++
+					c.Pass("D1", "loop("+key+")", l.Range.Pos(), "elements are collected in map order, returned, and sorted by every caller before any other use")
+					continue
+				}
+			}
+			// a loop moved into a private helper of a function whose own loop was triaged: the
+			// triage reasons are about what becomes of the value the function returns, and the
+			// only caller passes the helper's verdict on unchanged
+			if via, tr, ok := triagedThroughOnlyCaller(c, l, eff); ok {
+				usedTriage[via] = true
+				nTriaged++
+				c.Pass("D1", "loop("+key+")", l.Range.Pos(), "triaged through its only caller ["+via+"]: "+tr.Reason)
+				continue
+			}
 			c.Fail("D1", "loop("+key+")", l.Range.Pos(),
 				fmt.Sprintf("map iteration order can reach an output [%s]: %s", eff, strings.Join(l.Notes, "; ")))
 		}
@@ -645,4 +675,54 @@ func visitorsNeverStopTheWalk(c *an.Ctx, l *an.MapLoop, cfg *an.OrderConfig) (bo
 		return false, bad
 	}
 	return n > 0, "no call of WalkExp with a visitor found"
+}
+
+// triagedThroughOnlyCaller: the loop sits in an unexported function with exactly one caller, that
+// caller returns the helper's result as its own, and a triage entry exists for a loop of the caller
+// with the same effect signature.
+func triagedThroughOnlyCaller(c *an.Ctx, l *an.MapLoop, eff string) (string, triage, bool) {
+	fn := l.Fn
+	if fn == nil || fn.Object() == nil || fn.Object().Exported() {
+		return "", triage{}, false
+	}
+	callers := c.P.Callers(fn)
+	if len(callers) != 1 {
+		return "", triage{}, false
+	}
+	for caller, sites := range callers {
+		// the verdict is passed on: some return of the caller hands back the call's value
+		passes := false
+		for _, s := range sites {
+			v := s.Value()
+			if v == nil {
+				continue
+			}
+			an.Instrs(caller, func(in ssa.Instruction) {
+				if r, ok := in.(*ssa.Return); ok {
+					for _, res := range r.Results {
+						if an.Strip(res) == ssa.Value(v) {
+							passes = true
+						}
+						if ph, ok := res.(*ssa.Phi); ok {
+							for _, e := range ph.Edges {
+								if an.Strip(e) == ssa.Value(v) {
+									passes = true
+								}
+							}
+						}
+					}
+				}
+			})
+		}
+		if !passes {
+			return "", triage{}, false
+		}
+		prefix := an.FnName(caller) + "#range("
+		for k, tr := range c10Triage {
+			if strings.HasPrefix(k, prefix) && tr.Effects == eff && tr.Check == nil {
+				return k, tr, true
+			}
+		}
+	}
+	return "", triage{}, false
 }
